@@ -59,6 +59,7 @@ type c9Case struct {
 	Limit    int64         `json:"limit"`
 	Batches  [][]c9Entry   `json:"batches"`   // one batching
 	Batching [][][]c9Entry `json:"batchings"` // all batchings of the same flat list (parent side only)
+	Mode     string        `json:"mode,omitempty"` // "" = logql_transpiler_v2.Plan with the getter replaced; "internal" = internal_planner.Plan on the whole pipeline (engines stream)
 }
 
 type c9Out struct {
@@ -256,6 +257,9 @@ func c9Canon(out [][]shared.LogEntry) (string, string) {
 
 func c9RunImpl(c c9Case) (res c9Out) {
 	res.Internal = -1
+	if c.Mode == "internal" {
+		return c9RunInternal(c)
+	}
 	script, err := logql_parser.Parse(c.Query)
 	if err != nil {
 		res.Skip = "parse: " + err.Error()
@@ -722,9 +726,21 @@ func c9Json(msg string) string {
 	var toks []string
 	var val func(d *jx.Decoder) bool // false: failed inside
 	val = func(d *jx.Decoder) bool {
+		// the source text of an object / array, when it can be read to its end (`Decoder.Raw`)
+		text := func() string {
+			var raw jx.Raw
+			if err := d.Capture(func(d *jx.Decoder) error {
+				r, err := d.Raw()
+				raw = append(jx.Raw(nil), r...)
+				return err
+			}); err != nil {
+				return ""
+			}
+			return hx(string(raw))
+		}
 		switch d.Next() {
 		case jx.Object:
-			toks = append(toks, "O")
+			toks = append(toks, "O"+text())
 			good := true
 			err := d.Obj(func(d *jx.Decoder, key string) error {
 				toks = append(toks, "k"+hx(key))
@@ -741,7 +757,7 @@ func c9Json(msg string) string {
 			toks = append(toks, "E")
 			return good
 		case jx.Array:
-			toks = append(toks, "A")
+			toks = append(toks, "A"+text())
 			good := true
 			err := d.Arr(func(d *jx.Decoder) error {
 				if !val(d) {
@@ -773,6 +789,11 @@ func c9Json(msg string) string {
 			toks = append(toks, "R"+hx(raw.String()))
 			return true
 		}
+	}
+	if jx.Valid([]byte(msg)) {
+		toks = append(toks, "V1")
+	} else {
+		toks = append(toks, "V0")
 	}
 	val(jx.DecodeStr(msg))
 	return strings.Join(toks, ",")
@@ -1771,6 +1792,12 @@ func c09(r *h.Result, rng *h.Rng, tier string, replay string) error {
 	rng = h.NewRng(rng.U64() ^ 0xC09C09C09) // h.NewRng(s) and h.NewRng(s+1) are one step apart: re-seed from an output
 	if err := c9PathStream(r, rng.Fork(), map[bool]int{true: 1500, false: 20000}[tier == "quick"]); err != nil {
 		return err
+	}
+	if err := c9Engines(r, rng.Fork(), map[bool]int{true: 500, false: 6000}[tier == "quick"], nil); err != nil {
+		return err
+	}
+	if os.Getenv("VERIF_C09_ONLY") == "engines" { // development aid: one stream only
+		return nil
 	}
 	nCases, nBatchings, maxEntries := 1200, 3, 60
 	if tier != "quick" {
